@@ -14,21 +14,23 @@ TECHNIQUE = ("Coq-verified continuum certificates: (1) first order - check_trig_
              "check_trig_acc_hi / check_inv_acc_hi: exact cheb2poly, Taylor shift of p at the cell centre in 400-bit interval arithmetic, the "
              "target through the addition formulas with the alternating-series remainders of cos u, sin u (|u| <= 1) resp. the geometric "
              "series of 1/(x0+d), coefficient-wise difference bounded by sum_k |d_k| r^k. The erf-family clause is decided by independent "
-             "recomputation of the least-squares Chebyshev fit (normal equations, float oracle for erf) and comparison of coefs/scale with it")
-LEVEL_TEXT = ("Props/C16.v: 8 theorems (certificate soundness, first and high order, for cosine/sine in both bases and for 1/x; target "
-              "enclosure; Taylor shift). Every cosine, sine and 1/x output of the run is certified on the whole interval (the high-order "
+             "recomputation of the least-squares Chebyshev fit - in closed form, c_k = (2-[k=0])/N sum_j f(x_j) T_k(x_j), which is proved to be "
+             "the least-squares solution on the N first-kind Chebyshev nodes (discrete orthogonality, Theory/DctT.v) - with a float oracle "
+             "for erf / exp, and comparison of coefs/scale with it")
+LEVEL_TEXT = ("Props/C16.v: 11 theorems (certificate soundness, first and high order, for cosine/sine in both bases and for 1/x; target "
+              "enclosure; Taylor shift; discrete orthogonality and the closed form of the least-squares fit). Every cosine, sine and 1/x output of the run is certified on the whole interval (the high-order "
               "certificate takes over where the first-order cover would exceed the cell budget, i.e. at small eps). PARTIAL for the erf "
               "family: 'is a positive multiple of the least-squares fit of the documented target' is checked against a float recomputation "
               "(erf, exp, chebpts1 nodes are oracles), no theorem.")
-LEVEL_NOTE = ("Trusted: Coq kernel, extraction, driver.ml, harness (cell proposal untrusted), numpy/scipy as executors; scipy.special.erf "
-              "and numpy's linear solve inside the reference recomputation of the erf-family fits. Axioms: stdlib real-number axioms + "
+LEVEL_NOTE = ("Trusted: Coq kernel, extraction, driver.ml, harness (cell proposal untrusted), numpy/scipy as executors; scipy.special.erf, "
+              "exp, log, cos inside the reference evaluation of the erf-family fits (float oracles). Axioms: stdlib real-number axioms + "
               "Classical_Prop.classic.")
 RULE = ("cosine / sine: tau in (0, 60] plus large values up to 200, eps in {0.5, 0.1, 1e-2, 1e-4, 1e-8, 1e-10}, both bases (monomial while "
         "degree <= 24), bounded and unbounded; 1/x: (kappa, eps) table with kappa in [1.5, 10] and kappa^2 log(kappa/eps) <= 500, both "
         "ensure_bounded values, Chebyshev basis; erf family: degrees 2..60, shapes as C14, cheb_samples >= degree+1, Chebyshev basis; "
         "distinct by JSON; non-trivial = always")
 TRUSTED = ["Coq 8.16.1 kernel", "extraction (ExtrOcamlBasic, ExtrOcamlZBigInt) + driver.ml + zarith", "harness (cell proposal untrusted; impl_handlers5.py)",
-           "numpy/scipy as executors; scipy.special.erf + numpy.linalg.solve as oracles of the erf-family reference fit"]
+           "numpy/scipy as executors; scipy.special.erf, exp, log, cos as float oracles of the erf-family reference fit (closed form, no linear solve)"]
 ASSUME = ["returned doubles, tau, eps, kappa are exact dyadic rationals; erf-family targets as documented in poly.py's docstrings / closures"]
 
 
@@ -236,4 +238,4 @@ def run(ctx):
             ctx.bucket("undecided: proposed certificate rejected by the checker (%s)" % what)
         else:
             ctx.infra_fail("extracted accuracy checker failed: " + str(m)[:100])
-    ctx.residual.append("erf-family clause: recomputation with float oracles (scipy.special.erf, numpy.linalg.solve), no theorem")
+    ctx.residual.append("erf-family clause: the closed form of the least-squares fit is a theorem; its evaluation uses float oracles (scipy.special.erf, exp, log, cos)")
